@@ -8,7 +8,8 @@
 From FRP Require Export Model.NatHole.
 Open Scope Z_scope.
 
-Record ctl_cfg := { cc_name : bytes; cc_sk : bytes; cc_allow : list bytes; cc_chan : Z }.
+(* cc_owner: the control session (server/control.go) whose NewProxy registered the proxy; -1: registered directly (EvListen) *)
+Record ctl_cfg := { cc_name : bytes; cc_sk : bytes; cc_allow : list bytes; cc_chan : Z; cc_owner : Z }.
 
 Inductive ctl_pc :=
 | PcNotify                       (* session inserted; in the select on  clientCfg.sidCh <- sid / time.After *)
@@ -36,13 +37,14 @@ Record ctl_state := {
   st_alive : list Z;            (* sid channels whose goroutine (XTCPProxy.Run's loop) sits in its select: it can take a sid *)
   st_busy : list Z;             (* ... whose goroutine is handing a sid over (GetWorkConnFromPool, WriteMsg): up to 10 s *)
   st_closedch : list Z;         (* ... whose proxy's closeCh is closed *)
+  st_deadctl : list Z;          (* control sessions whose read loop has ended and whose teardown (Control.worker) has run *)
   st_next_chan : Z;
   st_next_sid : Z;
   st_sess : list ctl_sess;
   st_an : nh_analyzer }.
 
 Definition ctl_init : ctl_state :=
-  {| st_cfgs := []; st_alive := []; st_busy := []; st_closedch := []; st_next_chan := 0; st_next_sid := 0; st_sess := []; st_an := [] |}.
+  {| st_cfgs := []; st_alive := []; st_busy := []; st_closedch := []; st_deadctl := []; st_next_chan := 0; st_next_sid := 0; st_sess := []; st_an := [] |}.
 
 Inductive ctl_ev :=
 | EvListen (name sk : bytes) (allow : list bytes)
@@ -60,7 +62,12 @@ Inductive ctl_ev :=
 | EvSendV (t : Z)
 | EvSendC (t : Z)
 | EvSleepDone (t : Z)
-| EvReport (sid : bytes) (success : bool).
+| EvReport (sid : bytes) (success : bool)
+| EvNewProxy (ctl : Z) (name sk : bytes) (allow : list bytes)
+                                     (* Control.handleNewProxy -> RegisterProxy -> XTCPProxy.Run -> ListenClient; it runs INSIDE the
+                                        read loop of control ctl, so it cannot happen once that loop has ended *)
+| EvCtlEnd (ctl : Z).                (* the read loop of control ctl ends (doneCh) and Control.worker tears down: Close of
+                                        every proxy the control registered *)
 
 Inductive ctl_role := ToVisitor | ToClient.
 
@@ -105,7 +112,7 @@ Definition ctl_delete (pc : ctl_pc) (s : ctl_sess) : ctl_sess :=
      ss_token := ss_token s; ss_reco := ss_reco s; ss_resps := ss_resps s; ss_in_table := false; ss_pc := pc |}.
 
 Definition ctl_with_sess (st : ctl_state) (l : list ctl_sess) : ctl_state :=
-  {| st_cfgs := st_cfgs st; st_alive := st_alive st; st_busy := st_busy st; st_closedch := st_closedch st; st_next_chan := st_next_chan st; st_next_sid := st_next_sid st;
+  {| st_cfgs := st_cfgs st; st_alive := st_alive st; st_busy := st_busy st; st_closedch := st_closedch st; st_deadctl := st_deadctl st; st_next_chan := st_next_chan st; st_next_sid := st_next_sid st;
      st_sess := l; st_an := st_an st |}.
 
 Section Ctl.
@@ -120,8 +127,8 @@ Section Ctl.
         | Some _ => Some (st, [OutListen false 0])
         | None =>
             let ch := st_next_chan st in
-            Some ({| st_cfgs := {| cc_name := name; cc_sk := sk; cc_allow := allow; cc_chan := ch |} :: st_cfgs st;
-                     st_alive := ch :: st_alive st; st_busy := st_busy st; st_closedch := st_closedch st; st_next_chan := ch + 1; st_next_sid := st_next_sid st;
+            Some ({| st_cfgs := {| cc_name := name; cc_sk := sk; cc_allow := allow; cc_chan := ch; cc_owner := -1 |} :: st_cfgs st;
+                     st_alive := ch :: st_alive st; st_busy := st_busy st; st_closedch := st_closedch st; st_deadctl := st_deadctl st; st_next_chan := ch + 1; st_next_sid := st_next_sid st;
                      st_sess := st_sess st; st_an := st_an st |}, [OutListen true ch])
         end
     | EvClose name =>
@@ -133,7 +140,7 @@ Section Ctl.
                     | Some c => filter (fun x => negb (x =? cc_chan c)) (st_busy st)
                     | None => st_busy st
                     end in
-        Some ({| st_cfgs := ctl_remove_cfg name (st_cfgs st); st_alive := alive; st_busy := busy; st_closedch := st_closedch st; st_next_chan := st_next_chan st;
+        Some ({| st_cfgs := ctl_remove_cfg name (st_cfgs st); st_alive := alive; st_busy := busy; st_closedch := st_closedch st; st_deadctl := st_deadctl st; st_next_chan := st_next_chan st;
                  st_next_sid := st_next_sid st; st_sess := st_sess st; st_an := st_an st |}, [])
     | EvProxyClose name =>
         let closed := match ctl_find_cfg name (st_cfgs st) with
@@ -141,18 +148,18 @@ Section Ctl.
                       | None => st_closedch st
                       end in
         Some ({| st_cfgs := ctl_remove_cfg name (st_cfgs st); st_alive := st_alive st; st_busy := st_busy st;
-                 st_closedch := closed; st_next_chan := st_next_chan st; st_next_sid := st_next_sid st;
+                 st_closedch := closed; st_deadctl := st_deadctl st; st_next_chan := st_next_chan st; st_next_sid := st_next_sid st;
                  st_sess := st_sess st; st_an := st_an st |}, [])
     | EvHandoverDone ch =>
         if ctl_zin ch (st_busy st)
         then Some ({| st_cfgs := st_cfgs st; st_alive := ch :: st_alive st;
-                      st_busy := filter (fun x => negb (x =? ch)) (st_busy st); st_closedch := st_closedch st;
+                      st_busy := filter (fun x => negb (x =? ch)) (st_busy st); st_closedch := st_closedch st; st_deadctl := st_deadctl st;
                       st_next_chan := st_next_chan st; st_next_sid := st_next_sid st; st_sess := st_sess st; st_an := st_an st |}, [])
         else None
     | EvLoopExit ch =>
         if ctl_zin ch (st_alive st) && ctl_zin ch (st_closedch st)
         then Some ({| st_cfgs := st_cfgs st; st_alive := filter (fun x => negb (x =? ch)) (st_alive st);
-                      st_busy := st_busy st; st_closedch := st_closedch st;
+                      st_busy := st_busy st; st_closedch := st_closedch st; st_deadctl := st_deadctl st;
                       st_next_chan := st_next_chan st; st_next_sid := st_next_sid st; st_sess := st_sess st; st_an := st_an st |}, [])
         else None
     | EvVisitor vm tr user =>
@@ -172,7 +179,7 @@ Section Ctl.
                 let sid := st_next_sid st in
                 let s := {| ss_sid := sid; ss_chan := cc_chan cfg; ss_vmsg := vm; ss_vtr := tr; ss_client := None;
                             ss_token := false; ss_reco := None; ss_resps := None; ss_in_table := true; ss_pc := PcNotify |} in
-                Some ({| st_cfgs := st_cfgs st; st_alive := st_alive st; st_busy := st_busy st; st_closedch := st_closedch st; st_next_chan := st_next_chan st;
+                Some ({| st_cfgs := st_cfgs st; st_alive := st_alive st; st_busy := st_busy st; st_closedch := st_closedch st; st_deadctl := st_deadctl st; st_next_chan := st_next_chan st;
                          st_next_sid := sid + 1; st_sess := st_sess st ++ [s]; st_an := st_an st |}, [])
           end
     | EvDeliver t =>
@@ -182,7 +189,7 @@ Section Ctl.
             | PcNotify => if ctl_zin (ss_chan s) (st_alive st)
                           then Some ({| st_cfgs := st_cfgs st;
                                         st_alive := filter (fun x => negb (x =? ss_chan s)) (st_alive st);
-                                        st_busy := ss_chan s :: st_busy st; st_closedch := st_closedch st;
+                                        st_busy := ss_chan s :: st_busy st; st_closedch := st_closedch st; st_deadctl := st_deadctl st;
                                         st_next_chan := st_next_chan st; st_next_sid := st_next_sid st;
                                         st_sess := ctl_update t (ctl_set_pc PcWait) (st_sess st); st_an := st_an st |},
                                      [OutSid (ss_chan s) t])
@@ -240,7 +247,7 @@ Section Ctl.
             match ss_pc s, ss_client s with
             | PcAnalyse, Some (cm, _) =>
                 let upd an reco rv rc :=
-                  Some ({| st_cfgs := st_cfgs st; st_alive := st_alive st; st_busy := st_busy st; st_closedch := st_closedch st; st_next_chan := st_next_chan st;
+                  Some ({| st_cfgs := st_cfgs st; st_alive := st_alive st; st_busy := st_busy st; st_closedch := st_closedch st; st_deadctl := st_deadctl st; st_next_chan := st_next_chan st;
                            st_next_sid := st_next_sid st;
                            st_sess := ctl_update t (fun s =>
                              {| ss_sid := ss_sid s; ss_chan := ss_chan s; ss_vmsg := ss_vmsg s; ss_vtr := ss_vtr s;
@@ -293,7 +300,7 @@ Section Ctl.
             | Some s =>
                 match success, ss_reco s with
                 | true, Some (k, m, i) =>
-                    Some ({| st_cfgs := st_cfgs st; st_alive := st_alive st; st_busy := st_busy st; st_closedch := st_closedch st; st_next_chan := st_next_chan st;
+                    Some ({| st_cfgs := st_cfgs st; st_alive := st_alive st; st_busy := st_busy st; st_closedch := st_closedch st; st_deadctl := st_deadctl st; st_next_chan := st_next_chan st;
                              st_next_sid := st_next_sid st; st_sess := st_sess st; st_an := nh_report (st_an st) k m i |}, [])
                 | _, _ => Some (st, [])
                 end
@@ -301,6 +308,26 @@ Section Ctl.
             end
         | None => Some (st, [])
         end
+    | EvNewProxy ctl name sk allow =>
+        if ctl_zin ctl (st_deadctl st) || (ctl <? 0) then None
+        else
+          match ctl_find_cfg name (st_cfgs st) with
+          | Some _ => Some (st, [OutListen false 0])
+          | None =>
+              let ch := st_next_chan st in
+              Some ({| st_cfgs := {| cc_name := name; cc_sk := sk; cc_allow := allow; cc_chan := ch; cc_owner := ctl |} :: st_cfgs st;
+                       st_alive := ch :: st_alive st; st_busy := st_busy st; st_closedch := st_closedch st;
+                       st_deadctl := st_deadctl st; st_next_chan := ch + 1; st_next_sid := st_next_sid st;
+                       st_sess := st_sess st; st_an := st_an st |}, [OutListen true ch])
+          end
+    | EvCtlEnd ctl =>
+        if ctl <? 0 then None
+        else
+          Some ({| st_cfgs := filter (fun c => negb (cc_owner c =? ctl)) (st_cfgs st);
+                   st_alive := st_alive st; st_busy := st_busy st;
+                   st_closedch := map cc_chan (filter (fun c => cc_owner c =? ctl) (st_cfgs st)) ++ st_closedch st;
+                   st_deadctl := ctl :: st_deadctl st; st_next_chan := st_next_chan st; st_next_sid := st_next_sid st;
+                   st_sess := st_sess st; st_an := st_an st |}, [])
     end.
 
   (* a schedule: events that are not enabled are skipped *)
